@@ -263,9 +263,9 @@ var c17Failing = []func() gen.Expr{
 	func() gen.Expr { return &gen.EGroup{X: &gen.EBin{Op: "matches", L: num(1), R: str("(")}} },
 	func() gen.Expr { return &gen.EFilter{X: num(1), Name: "nofilter"} },
 	// every other way an expression fails at run time
-	func() gen.Expr { return &gen.ENum{Text: "1" + strings.Repeat("0", 400)} },                 // a literal no float64 holds
-	func() gen.Expr { return &gen.EGroup{X: &gen.ETest{X: num(1), Test: "nosuchtest"}} },       // unknown test
-	func() gen.Expr { return &gen.EGroup{X: &gen.EBin{Op: "in", L: num(1), R: num(5)}} },       // nothing is in a number
+	func() gen.Expr { return &gen.ENum{Text: "1" + strings.Repeat("0", 400)} },                    // a literal no float64 holds
+	func() gen.Expr { return &gen.EGroup{X: &gen.ETest{X: num(1), Test: "nosuchtest"}} },          // unknown test
+	func() gen.Expr { return &gen.EGroup{X: &gen.EBin{Op: "in", L: num(1), R: num(5)}} },          // nothing is in a number
 	func() gen.Expr { return &gen.EGroup{X: &gen.EBin{Op: "..", L: num(1), R: num(2000000000)}} }, // range beyond the limit
 	func() gen.Expr {
 		return &gen.EGroup{X: &gen.EBin{Op: "..", L: &gen.EGroup{X: &gen.EBin{Op: "/", L: num(1), R: num(0)}}, R: num(2)}}
